@@ -406,6 +406,42 @@ Proof.
   - destruct kind; apply R_same; reflexivity.
 Qed.
 
+Lemma Q_ANew ac rg hs envfp nenv init body : Q_racts init -> Q_acts body -> Q_act (ANew ac rg hs envfp nenv init body).
+Proof.
+  intros IHi IH v. rewrite run_act_ANew_eq. cbv zeta.
+  destruct (rp (top v) + regs (top v) + (ac + 3) <=? stack v); [|simpl; auto].
+  destruct (check_limits v).
+  - pose proof (handle_error_ctl v false [OLimit l]) as X. destruct (handle_error fx_new v false). exact X.
+  - destruct (run_racts fx_new (set_stack v (stack v - 1)) ROk init) as ((vi & ri) & oi).
+    destruct ri.
+    + match goal with |- context [run_acts fx_new ?w body] => specialize (IH w); destruct (run_acts fx_new w body) as ((v3 & r) & o) end.
+      destruct r; simpl; auto. apply brk_ok_app_r. exact IH.
+    + pose proof (handle_error_ctl vi catchable oi) as X. cbn [err_ctl]. destruct (handle_error fx_new vi catchable). exact X.
+    + simpl. auto.
+Qed.
+
+Lemma Q_RHostNew ac rg hs envfp nenv init body :
+  Q_racts init -> Q_acts body -> Q_ract (RHostNew ac rg hs envfp nenv init body).
+Proof.
+  intros IHi IH v last. rewrite run_ract_RHostNew_eq. cbv beta zeta.
+  match goal with |- context [check_limits ?w] => destruct (check_limits w) end.
+  - apply R_same; reflexivity.
+  - match goal with |- context [run_racts fx_new ?w ROk init] =>
+      specialize (IHi w ROk); destruct (run_racts fx_new w ROk init) as ((vi & ri) & oi) end.
+    assert (Ri : R v vi oi) by (eapply R_pre; [|exact IHi]; reflexivity).
+    destruct ri.
+    + match goal with |- context [run_acts fx_new ?w body] =>
+        assert (E : pending w = pending vi) by (simpl; rewrite ?push_frame_pending; reflexivity);
+        pose proof (entry_R2 body IH vi w E) as X;
+        destruct (run_acts fx_new w body) as ((v4 & r) & o) end.
+      match goal with |- context [pop_frame ?w] => destruct (pop_frame w) as [(f & v6)|] eqn:P end.
+      * apply pop_frame_pending in P. rewrite app_assoc_reverse || idtac.
+        eapply R_trans; [exact Ri|]. apply X. exact P.
+      * eapply R_trans; [exact Ri|]. apply panic_R.
+    + apply done_R with (v1 := vi); auto.
+    + apply done_R with (v1 := vi); auto.
+Qed.
+
 Lemma Q_RNil : Q_racts RNil.
 Proof. intros v last. rewrite run_racts_RNil_eq. apply R_refl. Qed.
 
@@ -424,7 +460,7 @@ Proof.
   destruct Q_simple_acts as (S1 & S2 & S3 & S4 & S5 & S6 & S7).
   destruct Q_handlers as (H1 & H2 & H3 & H4 & H5 & H6 & H7 & H8).
   destruct Q_ract_simple as (R1 & R2 & R3 & R4 & R5 & R6).
-  apply tree_mutind; intros; auto using Q_ACall, Q_ACallNative, Q_ARust, Q_ANil, Q_ACons, Q_RHostEval, Q_RHostCall,
+  apply tree_mutind; intros; auto using Q_ANew, Q_RHostNew, Q_ACall, Q_ACallNative, Q_ARust, Q_ANil, Q_ACons, Q_RHostEval, Q_RHostCall,
     Q_RHostCallNative, Q_RHostConstruct, Q_RHostConstructNative, Q_RResume, Q_RBlock, Q_RNil, Q_RCons.
 Qed.
 
